@@ -74,6 +74,7 @@ type summary struct {
 	XNetChecked  int            `json:"xnet_crosschecked"`
 	Samples      []interface{}  `json:"samples"`
 	Bridged      int            `json:"programs_over_255"`
+	DumpChecked  int            `json:"dump_checked"`
 }
 
 var (
@@ -368,6 +369,21 @@ func runCase(h *polcase.Header, idx int, cs *polcase.Case, c *polcase.Conc, rng 
 	sum.Accepted++
 	if len(insts) > 255 {
 		sum.Bridged++
+	}
+	// beyond the listed properties: Policy.Dump prints exactly the program Assemble returns, one line per instruction
+	if idx%5 == 0 {
+		var db bytes.Buffer
+		derr := pol.Dump(&db)
+		var want bytes.Buffer
+		for n, in := range insts {
+			fmt.Fprintf(&want, "%d: %v\n", n, in)
+		}
+		sum.DumpChecked++
+		if derr != nil || !bytes.Equal(db.Bytes(), want.Bytes()) {
+			f := base
+			f.Kind, f.Why = "dump", fmt.Sprintf("Policy.Dump does not print the program Policy.Assemble returns (err %v)", derr)
+			fail(f)
+		}
 	}
 	raw, rerr := bpf.Assemble(insts)
 	if rerr != nil {
